@@ -41,7 +41,7 @@ ALPHABET = [
 
 
 def budget(tier):
-    return 12000 if tier == "quick" else 5 * G.short_history_count(len(ALPHABET), 3) + 150_000
+    return 12000 if tier == "quick" else 5 * G.short_history_count(len(ALPHABET), 3) + 300_000
 
 
 def wall(tier):
